@@ -654,7 +654,8 @@ ares_status_t ares_dns_name_parse(ares_buf_t *buf, char **name,
   }
 
   if (name != NULL) {
-    *name = ares_buf_finish_str(namebuf, NULL);
+    *name   = ares_buf_finish_str(namebuf, NULL);
+    namebuf = NULL;
     if (*name == NULL) {
       status = ARES_ENOMEM; /* LCOV_EXCL_LINE: OutOfMemory */
       goto fail;            /* LCOV_EXCL_LINE: OutOfMemory */
